@@ -70,7 +70,8 @@ BinScene(v) ==
 (* ======================= soundscripts ==================================== *)
 \* a pitch of (PITCH_NORM, PITCH_NORM) is the number 100 twice and is not written
 \* (it is the number 100 twice); a sound with any operator stack is a version 2 sound
-SndDecay(v) == [v EXCEPT !.pitch = IF @ = <<"PITCH_NORM", "PITCH_NORM">> THEN <<"100.0", "100.0">> ELSE @,
+\* (PITCH_NORM and 100.0 are two spellings of one number: a pitch that is 100 at both ends is the default)
+SndDecay(v) == [v EXCEPT !.pitch = IF @[1] \in {"PITCH_NORM", "100.0"} /\ @[2] \in {"PITCH_NORM", "100.0"} THEN <<"100.0", "100.0">> ELSE @,
                          !.force = @ \/ \E k \in 1..3 : v.stacks[k] # <<>>]
 
 (* ======================= particle systems ================================ *)
